@@ -294,7 +294,8 @@ def main(chk: core.Check) -> int:
                             "plus public-API reads; the fixture part is exhaustive testing of a finite space in the thorough tier and labelled as such")
     chk.assumptions += ["uproot's own entry-range -> basket-selection code, decompression and ak.concatenate are outside the model (exercised through the public API on one-basket fixtures)",
                         "AsCustom.final_array (uproot-custom 2.2) is third-party code modelled from its source"]
-    chk.prove()
+    # C01Cgem: round trip of the CGEM cluster reader incl. the recorded finding as a theorem pair (cgem_keys_layout_independent_partial / cgem_keys_layout_dependent_witness)
+    chk.prove(modules=["C02", "C01Cgem"])
     try:
         diffs = model_vs_real(chk, 4000 if thorough else 500)
         chk.coverage["traces_validated_against_impl"] = chk.evals
